@@ -22,6 +22,8 @@ LEVEL = "model_checking"
 def replay(case) -> dict:
     if case.get("kind") == "loader":
         return replay_loader(case)
+    if case.get("kind") == "split":
+        return replay_split(case)
     from acryo._utils import fourier_shell_correlation as fsc
 
     cfg = case["cfg"]
@@ -123,6 +125,39 @@ def replay_loader(case) -> dict:
     return dict(failures=fails)
 
 
+def replay_split(case) -> dict:
+    """"the two disjoint half-averages": the half maps returned by fsc_with_halfmaps over weighted one-hot sub-volumes
+    (C09's lattice) are recorded as an average_split event and judged by TLC with the Averaging acceptor."""
+    from harness.props import c09
+
+    loader = c09._build(case)
+    cfg = case["cfg"]
+    subs = [c09._onehot(x) for x in loader.asnumpy()]
+    keys = [int(x) for x in loader.molecules.features["k"].to_list()]
+    out = dict(avg=[], sets=[], sets2=[], groups=[], err="")
+    try:
+        rs = [loader.fsc_with_halfmaps(seed=cfg["seed"], n_set=cfg["n_set"], zero_norm=False, squeeze=False) for _ in range(2)]
+        for r, name in zip(rs, ("sets", "sets2")):
+            out[name] = [dict(h0=c09._sparse(r.halfmaps[0][i]), h1=c09._sparse(r.halfmaps[1][i])) for i in range(cfg["n_set"])]
+    except Exception as e:  # noqa: BLE001
+        out["err"] = type(e).__name__ + ": " + str(e)[:100]
+    return dict(events=[dict(id=f"split:{case['_i']}", op="average_split", subs=subs, keys=keys, out=out, n_set=cfg["n_set"], seed=cfg["seed"])])
+
+
+def _split_cases(seed):
+    out = []
+    i = 0
+    for n in (2, 3, 4, 5, 6, 7):
+        for kind in ("single", "batch"):
+            for n_set in (1, 2):
+                for sd in (0, 1, (seed + n) % 11):
+                    subs = [dict(v=(4 * j + n) % 27, w=1 + j % 3) for j in range(n)]
+                    out.append(dict(kind="split", _i=i, cfg=dict(n=n, kind=kind, chunks="numpy", n_set=n_set, seed=sd),
+                                    subs=subs, keys=[j % 2 for j in range(n)]))
+                    i += 1
+    return out
+
+
 def run(rep: engine.Report, tier: str, seed: int):
     mc = rep.add_tlc(engine.tlc("MC_C17", "MC_C17", workers=1, timeout=1800))
     cases = mc.emitted
@@ -141,6 +176,21 @@ def run(rep: engine.Report, tier: str, seed: int):
     allc = cases + lcases
     results = engine.parallel_replay("harness.props.c17", "replay", allc)
     engine.collect(rep, allc, results, key=lambda c: c.get("cfg") or {k: c[k] for k in c if k != "seed0"})
+    scases = _split_cases(seed)
+    events = []
+    for c, r in zip(scases, engine.parallel_replay("harness.props.c17", "replay", scases)):
+        if "machinery_error" in r:
+            rep.machinery_error(r["machinery_error"])
+        else:
+            events.extend(r["events"])
+    res, verdict = engine.validate_trace("Trace_Avg", events, tag="fschalves")
+    rep.add_tlc(res)
+    badmap = {b["i"]: b for b in verdict["bad"]}
+    bycase = {f"split:{c['_i']}": c for c in scases}
+    for i, e in enumerate(events, start=1):
+        fails = [dict(clause="HalvesNotDisjointMeans", why=badmap[i]["why"], n=len(e["subs"]), error=e["out"]["err"], event=e)] if i in badmap else []
+        rep.record(bycase[e["id"]], fails, nontrivial_key=("split", e["subs"], e["n_set"], e["seed"]))
+    rep.count("halfmap_split_events", len(events))
     rep.exhaustive = True
     rep.traces_validated = len(allc)
     rep.samples = [dict(cfg=cases[0]["cfg"], shells=cases[0]["shells"][:3]), {k: v for k, v in lcases[0].items()}]
@@ -149,7 +199,9 @@ def run(rep: engine.Report, tier: str, seed: int):
         "widths x 6 image pairs (per-shell cross/power sums; laws: symmetry, self = power, gain covariance, Parseval) and the "
         "exact shell occupancy for 22 further shapes up to 6^3 (odd/even/non-cubic); the real fourier_shell_correlation is "
         f"compared shell by shell ({len(cases)} cases) and {len(lcases)} loader/group FSC cases are checked through the stated "
-        "relations (FSC of the C09 halves after the mask, half maps = split averages minus the mean, reproducibility)"
+        "relations (FSC of the C09 halves after the mask, half maps = split averages minus the mean, reproducibility); "
+        f"{len(scases)} fsc_with_halfmaps calls over weighted one-hot sub-volumes are judged by TLC with the Averaging acceptor "
+        "(the two half maps are means over a bipartition of the molecules: disjoint, exhaustive, reproducible)"
     )
     rep.assumptions += ["shells adjacent to a bin lying exactly on a shell boundary are not value-checked (floating-point labelling)"]
 
@@ -157,6 +209,10 @@ def run(rep: engine.Report, tier: str, seed: int):
 def replay_file(path: str) -> int:
     v = json.loads(open(path).read())
     r = replay(v["case"])
+    if v["case"].get("kind") == "split":
+        _, verdict = engine.validate_trace("Trace_Avg", r["events"], tag="replay")
+        print(json.dumps(dict(events=r["events"], verdict=verdict), indent=1))
+        return 1 if verdict["bad"] else 0
     print(json.dumps(r, indent=1, default=str))
     return 1 if r["failures"] else 0
 
